@@ -139,7 +139,6 @@ Section Delivery.
   Variable S : schema.
   Variable snake : bool.
   Hypothesis Hinputs : inputs_ok S snake = true.
-  Hypothesis Hf21 : g_f21 S = true.
 
   Lemma not_jnull_neq j : not_jnull j = true -> j <> JNull.
   Proof. destruct j; simpl; intros H E; discriminate. Qed.
@@ -151,16 +150,13 @@ Section Delivery.
 
   Lemma input_guards nm fs :
     lookup_type S nm = Some (DInput fs) ->
-    NoDup (map (fpy snake) fs) /\ NoDup (map if_name fs) /\
-    (forall f, In f fs -> ok_ty true (if_type f) = true).
+    NoDup (map (fpy snake) fs) /\ NoDup (map if_name fs).
   Proof.
     intro H. apply lookup_input_in in H.
     unfold inputs_ok in Hinputs. apply andb_true_iff in Hinputs as [Hi _].
     rewrite forallb_forall in Hi. specialize (Hi _ H). simpl in Hi.
     apply andb_true_iff in Hi as [H1 H2].
-    unfold g_f21 in Hf21. rewrite forallb_forall in Hf21. specialize (Hf21 _ H). simpl in Hf21.
-    rewrite forallb_forall in Hf21.
-    repeat split; [apply nodup_str_NoDup; exact H1 | apply nodup_str_NoDup; exact H2 | exact Hf21].
+    split; apply nodup_str_NoDup; assumption.
   Qed.
 
   Definition DF (m : nat) : gtype -> pyval -> option json := fun t' => dump_field ser m S snake t' true.
@@ -231,12 +227,12 @@ Section Delivery.
 
   (* a value inside an input model: what pydantic dumps coerces to what the caller meant *)
   Lemma field_delivery : forall n t nl v,
-    typed n S snake t v = true -> ok_ty nl t = true -> (nl = false -> v <> PNone) ->
+    typed n S snake t v = true -> (nl = false -> v <> PNone) ->
     exists j c, (forall m, n <= m -> dump_field ser m S snake t nl v = Some j) /\
                 coerce n S t j = Some c /\ intend ser n S snake t v = Some c /\
                 (v <> PNone -> j <> JNull).
   Proof.
-    induction n as [|n IH]; intros t nl v Hty Hok Hnl; [discriminate|].
+    induction n as [|n IH]; intros t nl v Hty Hnl; [discriminate|].
     destruct t as [nm|t'|t'].
     - (* named *)
       destruct v as [| |z|fl|s|b|ty s|j0|l|cls kw];
@@ -291,10 +287,10 @@ Section Delivery.
       + destruct bi; discriminate.
       + (* model *)
         apply andb_true_iff in Hty as [_ Hfs].
-        destruct (input_guards nm fs El) as [Hpy [Hnm Hokf]].
+        destruct (input_guards nm fs El) as [Hpy Hnm].
         destruct (fields_delivery n fs kw Hpy Hnm Hfs) as [o [cs [Hd [Hk [Hc Hi]]]]].
         { intros f v Hf Ev Htv.
-          destruct (IH (if_type f) true v Htv (Hokf f Hf)) as [j [c [H1 [H2 [H3 _]]]]]; [discriminate|].
+          destruct (IH (if_type f) true v Htv) as [j [c [H1 [H2 [H3 _]]]]]; [discriminate|].
           exists j, c. repeat split; assumption. }
         exists (JObj o), (CObj cs). repeat split; try discriminate.
         * intros [|m] Hm; [lia|]. simpl. rewrite El. unfold DF in Hd. rewrite (Hd m); [reflexivity|lia].
@@ -307,13 +303,10 @@ Section Delivery.
         * intros [|m] Hm; [lia|]. reflexivity.
         * intro H; exfalso; apply H; reflexivity.
       + simpl in Hty. rewrite forallb_forall in Hty.
-        simpl in Hok. apply andb_true_iff in Hok as [Hnn Hok'].
-        destruct (list_delivery (fun m => dump_field ser m S snake t' nl) (coerce n S t')
+        destruct (list_delivery (fun m => dump_field ser m S snake t' true) (coerce n S t')
                                 (intend ser n S snake t') n l) as [js [cs [Hd [Hc Hi]]]].
-        { intros x Hx. destruct (IH t' nl x (Hty x Hx) Hok') as [j [c [H1 [H2 [H3 _]]]]].
-          - intro E; subst nl. simpl in Hnn. destruct t'; try discriminate.
-            eapply typed_nonnull_not_none. apply Hty; exact Hx.
-          - exists j, c. repeat split; assumption. }
+        { intros x Hx. destruct (IH t' true x (Hty x Hx)) as [j [c [H1 [H2 [H3 _]]]]]; [discriminate|].
+          exists j, c. repeat split; assumption. }
         exists (JArr js), (CList cs). repeat split; try discriminate.
         * intros [|m] Hm; [lia|]. simpl. rewrite (Hd m); [reflexivity|lia].
         * simpl. rewrite Hc. reflexivity.
@@ -323,19 +316,19 @@ Section Delivery.
       assert (Hty' : negb (is_nonnull t') && typed n S snake t' v = true).
       { simpl in Hty. destruct v; try exact Hty. exfalso; apply Hv; reflexivity. }
       apply andb_true_iff in Hty' as [Hnn Hty']. apply negb_true_iff in Hnn.
-      destruct (IH t' false v Hty' Hok (fun _ => Hv)) as [j [c [H1 [H2 [H3 H4]]]]].
+      destruct (IH t' false v Hty' (fun _ => Hv)) as [j [c [H1 [H2 [H3 H4]]]]].
       exists j, c. repeat split; try assumption.
       + intros [|m] Hm; [lia|]. simpl. apply H1. lia.
       + simpl. rewrite Hnn. specialize (H4 Hv). destruct j; try exact H2. exfalso; apply H4; reflexivity.
       + simpl. destruct v; try exact H3. exfalso; apply Hv; reflexivity.
   Qed.
 
-  (* the generated input classes accept every schema-valid value, unless a non-null list has nullable items *)
+  (* the generated input classes accept every schema-valid value *)
   Lemma typed_constructible : forall n t nl v,
-    typed n S snake t v = true -> ok_ty nl t = true -> (nl = false -> v <> PNone) ->
+    typed n S snake t v = true -> (nl = false -> v <> PNone) ->
     constructible n S snake t nl v = true.
   Proof.
-    induction n as [|n IH]; intros t nl v Hty Hok Hnl; [discriminate|].
+    induction n as [|n IH]; intros t nl v Hty Hnl; [discriminate|].
     destruct t as [nm|t'|t'].
     - destruct v as [| |z|fl|s|b|ty s|j0|l|cls kw];
         [ | simpl in Hty; destruct (lookup_type S nm) as [[bi|c|vals|fs]|] eqn:El; try discriminate .. ];
@@ -343,21 +336,18 @@ Section Delivery.
       + simpl. destruct nl; [reflexivity|exfalso; apply Hnl; reflexivity].
       + destruct bi; discriminate.
       + apply andb_true_iff in Hty as [_ Hfs]. simpl. rewrite El.
-        destruct (input_guards nm fs El) as [_ [_ Hokf]].
         unfold typed_fields in Hfs. apply andb_true_iff in Hfs as [_ Hall].
         rewrite forallb_forall in Hall. apply forallb_forall. intros f Hf.
         specialize (Hall f Hf). destruct (assoc (fpy snake f) kw) as [x|]; [|reflexivity].
-        apply IH; [exact Hall | apply Hokf; exact Hf | discriminate].
+        apply IH; [exact Hall | discriminate].
     - destruct v as [| |z|fl|s|b|ty s|j0|l|cls kw]; try discriminate.
       + simpl. destruct nl; [reflexivity|exfalso; apply Hnl; reflexivity].
-      + simpl in Hty. rewrite forallb_forall in Hty. simpl in Hok. apply andb_true_iff in Hok as [Hnn Hok'].
-        simpl. apply forallb_forall. intros x Hx. apply IH; [apply Hty; exact Hx | exact Hok' |].
-        intro E; subst nl. simpl in Hnn. destruct t'; try discriminate.
-        eapply typed_nonnull_not_none. apply Hty; exact Hx.
+      + simpl in Hty. rewrite forallb_forall in Hty.
+        simpl. apply forallb_forall. intros x Hx. apply IH; [apply Hty; exact Hx | discriminate].
     - assert (Hv : v <> PNone) by (eapply typed_nonnull_not_none; exact Hty).
       assert (Hty' : negb (is_nonnull t') && typed n S snake t' v = true).
       { simpl in Hty. destruct v; try exact Hty. exfalso; apply Hv; reflexivity. }
-      apply andb_true_iff in Hty' as [_ Hty']. simpl. apply IH; [exact Hty' | exact Hok | intros _; exact Hv].
+      apply andb_true_iff in Hty' as [_ Hty']. simpl. apply IH; [exact Hty' | intros _; exact Hv].
   Qed.
 
   (* ---------- a top-level argument: serialize wrapping + value-directed _convert_value ---------- *)
@@ -433,10 +423,10 @@ Section Delivery.
         * destruct bi; discriminate.
         * destruct bi; discriminate.
         * apply andb_true_iff in Hty as [Hcls Hfs]. apply String.eqb_eq in Hcls. subst cls.
-          destruct (input_guards nm fs El) as [Hpy [Hnm Hokf]].
+          destruct (input_guards nm fs El) as [Hpy Hnm].
           destruct (fields_delivery n fs kw Hpy Hnm Hfs) as [o [cs [Hd [Hk [Hc Hi]]]]].
           { intros f v Hf Evv Htv.
-            destruct (field_delivery n (if_type f) true v Htv (Hokf f Hf)) as [j [c [H1 [H2 [H3 _]]]]];
+            destruct (field_delivery n (if_type f) true v Htv) as [j [c [H1 [H2 [H3 _]]]]];
               [discriminate|].
             exists j, c. repeat split; assumption. }
           exists (JObj o), (CObj cs). repeat split; try discriminate.
